@@ -1,6 +1,10 @@
 import Csproto.Props.C07
+import Csproto.Bridge.Templates
 /- axiom audit for C07 -/
 #print axioms Csproto.C07.size_counts_unknown
 #print axioms Csproto.C07.marshal_reemits_unknown
 #print axioms Csproto.C07.unmarshal_keeps_skipped
 #print axioms Csproto.C07.template_facts
+#print axioms Csproto.C07.unknown_retained_in_order
+#print axioms Csproto.Gen.fold_unknown
+#print axioms Csproto.Bridge.Templates.unknown_fields_handled
